@@ -742,6 +742,9 @@ pub fn replay_file(p: &PropertyRun, path: &std::path::Path, root: &std::path::Pa
                     }
                 }
                 Verdict::Pass => {
+                    if let Some(r) = &o.readable {
+                        println!("{r}");
+                    }
                     println!("replay passes");
                     0
                 }
